@@ -13,7 +13,7 @@ import cycle_common as cc
 ID = "C09"
 FAMILY = "cycle"
 OCAML_SRCS = ("conv.ml", "drv_cycle.ml")
-USE_BICGSTAB = False      # Pre_BiCGStab segfaults on the unchanged tree (reported); switched on once it is fixed
+USE_BICGSTAB = True
 
 def rand_ivec(rng, n, lo=-4, hi=4):
     return [Fraction(rng.randint(lo, hi)) for _ in range(n)]
@@ -47,7 +47,7 @@ def gen_case(ctx, k, P):
     opts = dict(coarsen=rng.choice([0, 0, 1, 2, 3, 4]), interp=rng.choice([0, 0, 1, 2]),
                 strength=(1 if sa else rng.choice([0, 0, 0, 1])), theta=rng.choice([Fraction(0), Fraction(1, 4), Fraction(1, 2)]),
                 relax=rng.choice([0, 1, 2]), omega=rng.choice([Fraction(1, 2), Fraction(1), Fraction(5, 4)]),
-                sweeps=rng.choice([1, 1, 2]), max_coarse=rng.choice([2, 3, 4, 5]), max_levels=rng.choice([-1, -1, 2, 3]),
+                sweeps=rng.choice([1, 1, 2]), max_coarse=rng.choice([2, 3, 4, 5]), max_levels=rng.choice([25, 25, 2, 3, 4]),
                 tap=(rng.choice([-1, -1, -1, 0, 1]) if par else -1), tol=Fraction(1, 10 ** 7))
     if single:
         if rng.random() < 0.5: opts["max_levels"] = 1
@@ -69,6 +69,7 @@ def gen_case(ctx, k, P):
         extra += [("K", 0, 3), ("K", 0, 3)]
     if cls.startswith("par") and USE_BICGSTAB: extra += [("B", 0, 3), ("B", 0, 3)]
     ops = list(base) + [rng.choice(extra) for _ in range(rng.randint(3, 6))]
+    if n <= 20: ops += [("CD", 1, 3), ("CD", 5, 6)]          # cycles whose level vectors are dumped for the stage-wise model run
     rng.shuffle(ops)
     hist = []
     for o in ops:
@@ -115,6 +116,7 @@ def judge(ctx, c, res, model_lines):
     groups = {}
     for k, o in enumerate(c["hist"]):
         if o[0] == "P": continue
+        if o[0] == "CD": o = ("C",) + tuple(o[1:])
         if k not in outs:
             ctx.signal("O", sig0 + ":incomplete", "no output for operation %d %s" % (k, o), case=c["line"]); return
         groups.setdefault(o, []).append(k)
@@ -122,7 +124,7 @@ def judge(ctx, c, res, model_lines):
     for o, ks in groups.items():
         for k in ks[1:]:
             nrep += 1
-            if outs[k][0].split()[1:] != outs[ks[0]][0].split()[1:]:
+            if outs[k][0] != outs[ks[0]][0]:
                 ctx.signal("O", sig0 + ":history:" + o[0], "operation %s returned different results at positions %d and %d of the history "
                            "(level vectors poisoned / other systems solved in between)" % (o, ks[0], k), case=c["line"],
                            extra=dict(first=outs[ks[0]][0][:400], second=outs[k][0][:400]))
@@ -136,7 +138,7 @@ def judge(ctx, c, res, model_lines):
             oc = ("CC", o[1], o[2], o[3])
             if oc in groups and iters.get(ks[0]) == o[3]:
                 ctx.count("solve_vs_cycles")
-                if outs[ks[0]][0].split()[1:] != outs[groups[oc][0]][0].split()[1:]:
+                if outs[ks[0]][0] != outs[groups[oc][0]][0]:
                     ctx.signal("O", sig0 + ":solve_vs_cycles", "solve with %d iterations differs from %d cycle() calls" % (o[3], o[3]), case=c["line"])
     val = lambda o: outs[groups[o][0]][1]
     nontrivial = False
@@ -172,34 +174,64 @@ def judge(ctx, c, res, model_lines):
                     ctx.signal("O", sig0 + ":single_level_exact", "hierarchy of one level: cycle(x, b) does not solve A x = b "
                                "(max residual %s)" % (None if r is None else max(abs(x) for x in r)), case=c["line"]); break
     if nontrivial or L == 1: ctx.nontrivial.add(c["line"].split(" ", 1)[1])
-    # --- K: the exact model on the dumped hierarchy
-    if dom and n <= 14 and L <= 3:
-        calls = [(k, o) for k, o in enumerate(c["hist"]) if o[0] == "C"]
-        toks = [cid, "cyc"] + cc.hier_tokens(levels, c["opts"]["relax"], c["opts"]["omega"], c["opts"]["sweeps"]) + [str(len(calls))]
+    # --- K: the exact model on the dumped hierarchy: whole cycle for tiny hierarchies, stage-wise (every level recomputed
+    #        from the library's own level inputs and coarse correction) for small ones
+    scr = dict(cc.last_scr)
+    if dom and n <= 7 and L <= 2:
+        calls = [(k, o) for k, o in enumerate(c["hist"]) if o[0] in ("C", "CD")][:3]
+        toks = [cid + "w", "cyc"] + cc.hier_tokens(levels, c["opts"]["relax"], c["opts"]["omega"], c["opts"]["sweeps"]) + [str(len(calls))]
         for k, o in calls: toks += cc.vec_toks(c["vecs"][o[1]]) + cc.vec_toks(c["vecs"][o[2]])
-        model_lines.append((cid, " ".join(toks), calls, outs, sig0, c["line"]))
+        model_lines.append(dict(kind="cyc", cid=cid + "w", mline=" ".join(toks), calls=calls, outs=outs, sig0=sig0, line=c["line"]))
+    if dom and n <= 20 and L <= 4:
+        for k, o in enumerate(c["hist"]):
+            if o[0] != "CD" or not all(("SX", k, l) in scr and ("SB", k, l) in scr for l in range(1, L)): continue
+            if not all(cc.finite(scr[(key, k, l)]) for key in ("SX", "SB") for l in range(1, L)): continue
+            mcid = "%ss%d" % (cid, k)
+            toks = [mcid, "stg"] + cc.hier_tokens(levels, c["opts"]["relax"], c["opts"]["omega"], c["opts"]["sweeps"])
+            toks += cc.vec_toks(c["vecs"][o[1]]) + cc.vec_toks(c["vecs"][o[2]])
+            for l in range(1, L):
+                toks += [cc.frac_tok(v) for v in scr[("SB", k, l)]] + [cc.frac_tok(v) for v in scr[("SX", k, l)]]
+            model_lines.append(dict(kind="stg", cid=mcid, mline=" ".join(toks), k=k, L=L, out=outs[k][1], scr=scr, sig0=sig0, line=c["line"]))
 
-def compare_model(ctx, entry, mres):
-    cid, mline, calls, outs, sig0, line = entry
+def compare_model(ctx, e, mres):
+    sig0, line = e["sig0"], e["line"]
     if not mres:
         ctx.signal("K", sig0 + ":model", "model produced no output", case=line); return
     d = {}
     for key, toks in mres:
-        if key in ("OUT", "PSN"): d[(key, int(toks[0]))] = [nums.parse_num(x) for x in toks[1:]]
+        if key in ("OUT", "PSN", "STGX", "STGB"): d[(key, int(toks[0]))] = [nums.parse_num(x) for x in toks[1:]]
         elif key == "SINGULAR": ctx.count("model_coarse_singular"); return
         elif key == "ERR":
             ctx.signal("K", sig0 + ":model", "model driver error: " + " ".join(toks), case=line); return
-    for q, (k, o) in enumerate(calls):
-        ym = d.get(("OUT", q)); yp = d.get(("PSN", q)); yi = outs[k][1]
-        if ym is None:
-            ctx.signal("K", sig0 + ":model", "model output missing for call %d" % q, case=line); return
-        ctx.compared += 1
-        ok, why = cc.vec_close(yi, ym, 1e-8)
-        if not ok:
-            ctx.signal("K", sig0 + ":cycle", "model and implementation differ on cycle %s (history position %d): %s" % (o, k, why),
-                       case=line, extra=dict(model_case=mline[:3000])); return
-        if yp != ym:
-            ctx.signal("K", sig0 + ":model_history", "extracted model: poisoned scratch changed the result (contradicts C09_history_free)", case=line); return
+    if e["kind"] == "cyc":
+        for q, (k, o) in enumerate(e["calls"]):
+            ym = d.get(("OUT", q)); yp = d.get(("PSN", q)); yi = e["outs"][k][1]
+            if ym is None:
+                ctx.signal("K", sig0 + ":model", "model output missing for call %d" % q, case=line); return
+            ctx.compared += 1
+            ok, why = cc.vec_close(yi, ym, 1e-8)
+            if not ok:
+                ctx.signal("K", sig0 + ":cycle", "model and implementation differ on cycle %s (history position %d): %s" % (o, k, why),
+                           case=line, extra=dict(model_case=e["mline"][:3000])); return
+            if yp != ym:
+                ctx.signal("K", sig0 + ":model_history", "extracted model: poisoned scratch changed the result (contradicts C09_history_free)", case=line); return
+    else:
+        k, L, scr = e["k"], e["L"], e["scr"]
+        for l in range(L):
+            xm = d.get(("STGX", l)); xi = e["out"] if l == 0 else scr[("SX", k, l)]
+            if xm is None:
+                ctx.signal("K", sig0 + ":model", "stage output missing for level %d" % l, case=line); return
+            ctx.compared += 1
+            ok, why = cc.vec_close(xi, xm, 1e-8)
+            if not ok:
+                ctx.signal("K", sig0 + ":stage_x", "level %d of %d: model and implementation differ on the vector the level returns: %s" % (l, L, why),
+                           case=line, extra=dict(model_case=e["mline"][:3000])); return
+            if l + 1 < L:
+                bm = d.get(("STGB", l + 1)); bi = scr[("SB", k, l + 1)]
+                ok, why = cc.vec_close(bi, bm, 1e-8) if bm is not None else (False, "missing")
+                if not ok:
+                    ctx.signal("K", sig0 + ":stage_b", "level %d of %d: model and implementation differ on the restricted residual: %s" % (l, L, why),
+                               case=line, extra=dict(model_case=e["mline"][:3000])); return
 
 def run(ctx):
     ctx.rule = ("hierarchies built by RugeStubenSolver / SmoothedAggregationSolver / ParRugeStubenSolver / ParSmoothedAggregationSolver "
@@ -222,10 +254,10 @@ def run(ctx):
         impl, crashed = fw.run_impl_lines(ctx, "drv_cycle", [c["line"] for c in sub], nprocs=P, name="c09_p%d" % P, timeout=1500)
         for c in sub: judge(ctx, c, impl.get(c["cid"]), model_lines)
     if model_lines:
-        cf = fw.write_cases(ctx, "c09.model", [m[1] for m in model_lines])
+        cf = fw.write_cases(ctx, "c09.model", [m["mline"] for m in model_lines])
         rcm, model, _, errm = fw.run_model(ctx, cf, timeout=1500)
         if rcm != 0: ctx.signal("K", "modeldriver", "model driver exited with %s: %s" % (rcm, errm[-400:]))
-        for m in model_lines: compare_model(ctx, m, model.get(m[0]))
+        for m in model_lines: compare_model(ctx, m, model.get(m["cid"]))
 
 def replay_case(line):
     """rebuild what judge() needs from the case text"""
